@@ -17,7 +17,7 @@ def gen_seek(rng):
     for _ in range(n):
         m = rng.randrange(len(ms))
         msg.append((m, rng.choice(ms[m][1])[0]))
-    kind = rng.choice([0, 0, 1, 1, 2, 3, 3])
+    kind = rng.choice([0, 0, 1, 1, 2, 3, 3, 4, 4, 5])
     ops = []
     cur = n          # which snapshot the decoder currently corresponds to (None if unknown)
     lowest = n       # for the Vec backend: data above the lowest position reached is gone
@@ -79,8 +79,11 @@ def oracle_C07(inp, out):
         cur = n
         maxpos = snaps[n][0]      # length of the bulk
         lowest = maxpos
-        if kind == 3:
+        if kind in (3, 5):
             return _oracle_reversed(ms, msg, ops, snaps, out, o)
+        if kind == 4:
+            # a plain cursor again, but over all words: those of the state lie beyond the bulk
+            maxpos += inp[1] // inp[0]
         j = 0
         while j < len(ops):
             op = ops[j]
@@ -109,7 +112,8 @@ def oracle_C07(inp, out):
                 j += 2; o += 1
             elif op == 3:
                 p = ops[j + 1]
-                if p > (lowest if kind == 2 else maxpos) and out[o] == 0:
+                # (Vec backend: after an untracked decode the remaining length is unknown (-1): no claim)
+                if out[o] == 0 and not (kind == 2 and lowest < 0) and p > (lowest if kind == 2 else maxpos):
                     return "seek beyond the data was accepted"
                 if out[o] == 0:
                     cur = None
